@@ -9,11 +9,13 @@ package main
 //	  gun = http2: HTTP/2 TLS target, keep-alives disabled so that every request makes its own TLS handshake;
 //	  behaviours: status | tlsalert (this request's handshake is answered with a TLS alert) |
 //	  h2abort (stream reset before the headers) | h2trunc (body shorter than the declared Content-Length)
-//	step = <beh> <conn> <status> <bodyok> <body> <tok> <pp> <tmpl>
+//	step = <beh> <conn> <status> <bodyok> <body> <tok> <pp> <tmpl> <pre>
 //	  beh     shape of the misbehaviour (see respond)            conn/status/bodyok: the abstract response the
 //	  body    hex of the body bytes the server sends, or @<n>     generator claims for it (read by the model only)
 //	  tok     value of the X-Token response header ("-" = none)
 //	  pp      scenario postprocessor of the step: - | h:<hex chain> | j:<0|1> | x:<nodeset|number> | a:<status>:<hex pattern>
+//	  pre     scenario preprocessor: - | i:<index>:<len> = mapping item = request.r<i-1>.postprocessor.items[<index>] where the
+//	          previous step stored the list $.items (of that length) of ITS response with pp J:<0|1>
 //	  tmpl    scenario request templating: - | e (a header template whose execution fails) |
 //	          u0/u1 (URI path ends in {{.request.r<i-1>.postprocessor.tok}}; 0 = the generator claims that the
 //	          rendered URI does not parse, so prepareRequest fails)
@@ -23,6 +25,7 @@ package main
 
 import (
 	"bufio"
+	"bytes"
 	"context"
 	"crypto/tls"
 	"errors"
@@ -33,6 +36,7 @@ import (
 	"net/http"
 	"net/http/httptest"
 	"os"
+	"os/exec"
 	"path/filepath"
 	"runtime"
 	"sort"
@@ -63,6 +67,7 @@ type step struct {
 	tok    string
 	pp     string
 	tmpl   string
+	pre    string
 	status int
 }
 
@@ -104,7 +109,10 @@ func newTarget() *target {
 
 func (t *target) serve(c net.Conn) {
 	defer c.Close()
-	br := bufio.NewReader(c)
+	t.serveReader(c, bufio.NewReader(c))
+}
+
+func (t *target) serveReader(c net.Conn, br *bufio.Reader) {
 	for {
 		_ = c.SetReadDeadline(time.Now().Add(10 * time.Second))
 		req, err := http.ReadRequest(br)
@@ -217,6 +225,65 @@ func respond(c net.Conn, s step) bool {
 	}
 	w(head(500, "", 0))
 	return false
+}
+
+// ---------------------------------------------------------------------------------------
+// Tunnel endpoint for the connect gun (keep-alives off, one instance: connection k belongs to request k).
+// Tunnel-phase behaviours of step k: tunclose (close after reading CONNECT), tun403, tunextra (200 + stray bytes),
+// tunstall (nothing for 1.5 s, then close), tundown (close, and stop listening: later requests are refused);
+// anything else: "200" and then the connection is served like the plain target.
+
+func (t *target) serveTunnel(c net.Conn, k int) {
+	defer c.Close()
+	br := bufio.NewReader(c)
+	_ = c.SetReadDeadline(time.Now().Add(10 * time.Second))
+	req, err := http.ReadRequest(br)
+	if err != nil || req.Method != "CONNECT" {
+		return
+	}
+	beh := ""
+	t.mu.Lock()
+	if k < len(t.steps) {
+		beh = t.steps[k].beh
+	}
+	t.mu.Unlock()
+	switch beh {
+	case "tunclose":
+		return
+	case "tun403":
+		_, _ = c.Write([]byte("HTTP/1.1 403 Forbidden\r\nContent-Length: 0\r\n\r\n"))
+		return
+	case "tunextra":
+		_, _ = c.Write([]byte("HTTP/1.1 200 OK\r\n\r\nstray bytes"))
+		time.Sleep(50 * time.Millisecond)
+		return
+	case "tunstall":
+		time.Sleep(1500 * time.Millisecond)
+		return
+	case "tundown":
+		_ = t.ln.Close()
+		return
+	}
+	_, _ = c.Write([]byte("HTTP/1.1 200 Connection established\r\n\r\n"))
+	t.serveReader(c, br)
+}
+
+func newTunnelTarget(steps []step) *target {
+	ln, err := net.Listen("tcp", "127.0.0.1:0")
+	if err != nil {
+		panic(err)
+	}
+	t := &target{ln: ln, steps: steps}
+	go func() {
+		for k := 0; ; k++ {
+			c, err := ln.Accept()
+			if err != nil {
+				return
+			}
+			go t.serveTunnel(c, k)
+		}
+	}()
+	return t
 }
 
 // ---------------------------------------------------------------------------------------
@@ -355,8 +422,14 @@ func scenarioHCL(steps []step) string {
 			hdr = "{{index \"abc\" 9}}"
 		}
 		fmt.Fprintf(&b, "request %q {\n  method = \"GET\"\n  uri = %s\n  headers = {\n    Useragent = %s\n  }\n  tag = \"t%d\"\n", name, hclString(uri), hclString(hdr), i)
+		if k, rest, _ := strings.Cut(s.pre, ":"); k == "i" && i > 0 {
+			idx, _, _ := strings.Cut(rest, ":")
+			fmt.Fprintf(&b, "  preprocessor {\n    mapping = {\n      item = %s\n    }\n  }\n", hclString(fmt.Sprintf("request.r%d.postprocessor.items[%s]", i-1, idx)))
+		}
 		kind, arg, _ := strings.Cut(s.pp, ":")
 		switch kind {
+		case "J":
+			b.WriteString("  postprocessor \"var/jsonpath\" {\n    mapping = {\n      items = \"$.items\"\n    }\n  }\n")
 		case "h":
 			spec := "X-Token"
 			if chain := string(vh.UnHex(arg)); chain != "" {
@@ -385,6 +458,31 @@ func scenarioHCL(steps []step) string {
 // goroutines to stderr) and reported as a hang only if it does not finish the second time either: the guard is a
 // wall-clock bound and the machine may be starved.
 func runEngine(t *tokens) string {
+	if t.f[t.p] == "connect" && os.Getenv("HC19_CHILD") == "" {
+		// the connect gun dials inside net/http's own goroutine: a panic there cannot be recovered by anybody and
+		// kills the process, so every connect case runs in a child process and a death is an observation
+		cmd := exec.Command(os.Args[0], "child")
+		cmd.Env = append(os.Environ(), "HC19_CHILD=1")
+		cmd.Stdin = strings.NewReader(strings.Join(t.f, " ") + "\n")
+		var out bytes.Buffer
+		cmd.Stdout = &out
+		done := make(chan error, 1)
+		if err := cmd.Start(); err != nil {
+			return "run=harness-cannot-start-child"
+		}
+		go func() { done <- cmd.Wait() }()
+		select {
+		case err := <-done:
+			res := strings.TrimSpace(out.String())
+			if err != nil || !strings.HasPrefix(res, "run=") {
+				return "run=crashed n=0"
+			}
+			return res
+		case <-time.After(120 * time.Second):
+			_ = cmd.Process.Kill()
+			return "run=hang n=0"
+		}
+	}
 	start := t.p
 	out := runEngineOnce(t)
 	if strings.HasPrefix(out, "run=hang") {
@@ -418,6 +516,7 @@ func runEngineOnce(t *tokens) string {
 		s.tok = t.str()
 		s.pp = t.next()
 		s.tmpl = t.next()
+		s.pre = t.next()
 		steps = append(steps, s)
 	}
 	var addr string
@@ -430,8 +529,15 @@ func runEngineOnce(t *tokens) string {
 			defer srv.Close()
 		}
 	} else {
-		tg := newTarget()
-		tg.steps = steps
+		var tg *target
+		if gun == "connect" {
+			tg = newTunnelTarget(steps)
+		} else {
+			tg = newTarget()
+			tg.mu.Lock()
+			tg.steps = steps
+			tg.mu.Unlock()
+		}
 		addr = tg.ln.Addr().String()
 		if refused {
 			_ = tg.ln.Close() // nobody listens on that port any more: connection refused
@@ -465,6 +571,9 @@ func runEngineOnce(t *tokens) string {
 	}
 	if gun == "http2" {
 		guntype = "http2"
+	}
+	if gun == "connect" {
+		guntype = "connect"
 	}
 	pool := map[string]any{
 		"id":     "p",
